@@ -80,6 +80,27 @@ Theorem C14_chunk_phase_names :
 Proof. exact @chunk_phase_names. Qed.
 Print Assumptions C14_chunk_phase_names.
 
+(** A whole package update (every phase of the template, any slices left over from earlier revisions, any hash):
+    the slice names written into the template decode, phase by phase and in order, to exactly the chunks; slices
+    that existed before are not modified. Together with the chunk laws: concat of the referenced slices = the
+    phase's objects, for every history of updates. *)
+Theorem C14_update_lossless :
+  forall (C : Type) (ceqb : C -> C -> bool), (forall x y, ceqb x y = true <-> x = y) ->
+  forall (hash : C -> N -> N) phases (st st' : nstore C) ls,
+    chunk_phases ceqb hash st phases = (st', Some ls) ->
+    map (map (fun x => content_of st' (fst (fst x)))) ls = map (map Some) phases /\
+    (forall m e, nlookup m st = Some e -> nlookup m st' = Some e).
+Proof. exact @chunk_phases_lossless. Qed.
+Print Assumptions C14_update_lossless.
+
+Theorem C14_update_monitor_sound :
+  forall table st phases st' ls tmpl sets slices deleted,
+    chunk_phases N.eqb (tbl_hash table) st phases = (st', Some ls) ->
+    hmonitor {| gc_tmpl := tmpl; gc_sets := sets; gc_slices := slices; gc_deleted := deleted;
+                gc_want := phases; gc_got := got_of st' ls |} = true.
+Proof. exact hmonitor_sound. Qed.
+Print Assumptions C14_update_monitor_sound.
+
 Example C14_slice_names_satisfiable :
   reconcile_slice N.eqb (fun c cc => c + cc) [(5, {| es_content := 4; es_ctrl := true |}); (6, {| es_content := 5; es_ctrl := false |})] 5
   = ([(7, {| es_content := 5; es_ctrl := true |}); (5, {| es_content := 4; es_ctrl := true |}); (6, {| es_content := 5; es_ctrl := false |})],
@@ -121,8 +142,9 @@ Example C14_gc_satisfiable :
 Proof. reflexivity. Qed.
 
 Theorem C14_gc_monitor_sound :
-  forall tmpl sets slices,
-    gmonitor {| gc_tmpl := tmpl; gc_sets := sets; gc_slices := slices; gc_deleted := slice_gc tmpl sets slices |} = true.
+  forall tmpl sets slices want got,
+    gmonitor {| gc_tmpl := tmpl; gc_sets := sets; gc_slices := slices; gc_deleted := slice_gc tmpl sets slices;
+                gc_want := want; gc_got := got |} = true.
 Proof. exact gmonitor_sound. Qed.
 Print Assumptions C14_gc_monitor_sound.
 
@@ -157,7 +179,10 @@ Theorem C14_each_then_load_identity :
 Proof. exact each_then_load_identity. Qed.
 Print Assumptions C14_each_then_load_identity.
 
-(** sliced_equiv_active. For every world, every ObjectSet that is neither deleted nor archived and whose
+(** All statements below hold for mixed phase lists (in-process and delegated phases, arbitrary ObjectSetPhase
+    objects and namespaces in the world): the slices of a delegated phase are inlined into the desired phase object.
+
+    sliced_equiv_active. For every world, every ObjectSet that is neither deleted nor archived and whose
     referenced slices exist: one Reconcile pass on the sliced ObjectSet issues exactly the requests of the
     pass on the ObjectSet with the objects inline (member requests, finalizer, status with revision,
     conditions, controllerOf), interleaved with owner-reference updates of slices, returns the same result
